@@ -1,7 +1,8 @@
-/- driver for C01: `id <value>` -> calcId ; `text <value>` -> hex of canonical text ; `dump <value>` -> hex of insertion-order text -/
+/- driver for C01: `id <value>` -> calcId ; `text <value>` -> hex of canonical text ; `dump <value>` -> hex of insertion-order text ; `ftok <value>` -> are all float reprs float tokens (hypothesis of the injectivity theorems) -/
 import Signac.Json
 import Signac.Md5
 import Signac.Wire
+import Signac.FloatTok
 open Signac
 
 def stepC01 (line : String) : String :=
@@ -17,6 +18,10 @@ def stepC01 (line : String) : String :=
   | "dump" :: ts =>
     match parseValue ts with
     | some (v, []) => toHex (String.ofList (dumpChars v))
+    | _ => "bad-value"
+  | "ftok" :: ts =>
+    match parseValue ts with
+    | some (v, []) => if floatsTokB v then "ok" else "not-a-float-token"
     | _ => "bad-value"
   | "md5" :: [hx] =>
     match hexBytes hx.toList with
